@@ -3,6 +3,7 @@ import ArrProofs.Lemmas.C10Heap
 import ArrProofs.Lemmas.C10Tim
 import ArrProofs.Lemmas.C10Query
 import ArrProofs.Lemmas.C10Axis
+import ArrProofs.Lemmas.C10Ext
 /-!
 # C10 — all sort kinds give the same ordered rearrangement; order queries agree
 
@@ -17,10 +18,20 @@ model suffices" (running out of fuel is modelled as a panic).
 
 Scope: the lane-level (flat, `axis = None`) forms, and the `axis = Some(k)` forms of `sort`, `argsort`, `argmax`,
 `argmin` for every axis (either spelling) of every array of any rank whose axes all have length >= 1, lifted through
-the lead's central lemma for `apply_along_axis` (`applyAlongAxis_spec`).  `unique(axis)` is modelled and tied but has
-no theorem: lanes with different numbers of distinct values do not fit one array, the code then answers an error or
-a reshaped buffer, and the property statement does not say what it should be.  Arrays with a zero-length axis and the
-axis forms are covered by the tie only.
+the lead's central lemma for `apply_along_axis` (`applyAlongAxis_spec`).
+
+Extension (last three sections of this file, helper lemmas in `Lemmas/C10Ext.lean`):
+* arrays with a zero-length axis: the complete outcome of `sort` / `argsort` / `unique` / `argmax` / `argmin` in the flat
+  and axis forms (`*_zero_axis`, `*_flat_zero`, `argExtreme_zero`), and the total statements `*_op_total` /
+  `*_op_never_panics` for EVERY well-formed array (no "no zero-length axis" hypothesis), every axis option and selector;
+* `unique(axis)`: `unique_axis_spec` (every lane has `k` distinct values: shape[axis := k], every lane of the result is
+  the sorted distinct values of the input lane), `unique_axis_outcome` (the complete outcome for ragged lanes: the
+  concatenated per-lane answers reshaped to `rest ++ [k0]`, `k0` = the FIRST lane's count, when the total count happens
+  to be `rest.prod * k0`, otherwise `Err(ShapeMustMatchValuesLength)`), `unique_axis_ragged_refused`;
+* the result of `sort` / `argsort` in every form does not depend on the selected kind (`sort_op_kinds_equal`,
+  `argsort_op_kinds_equal`); `argsort_axis_lane_facts`: the three facts of `argsort_spec` for every lane of the axis form;
+* `argsort_rank_formula` (closed form: rank = #smaller + #equal-and-earlier) and `argsort_determined` (the three facts
+  of `argsort_spec` determine the answer).
 -/
 namespace ArrModel.C10
 open ArrModel ArrModel.Sort Arr
@@ -454,5 +465,393 @@ example : Sort.argExtreme Cmp.int 0 false sample3 (some 1) (some true) = .ok ⟨
 example : Sort.sort Cmp.int 0 sample3 (some 3) (.enum .Stable) = .err .AxisOutOfBounds := by decide +kernel
 example := sort_axis_spec Cmp.int_lawful 0 sample3 1 (.enum .Stable) .Stable rfl (by decide) (by decide) (by decide)
 example := argExtreme_axis_spec Cmp.int_lawful 0 true sample3 (-2) none (by decide) (by decide) (by decide)
+
+/-! ## arrays with a zero-length axis (no order law needed: no comparison is ever made) -/
+
+/-- all four kinds return the empty lane for the empty lane — for ANY comparison operators -/
+theorem sortFlat_nil (c : Cmp α) (k : SortKind) : sortFlat c k ([] : List α) = .ok [] := by cases k <;> rfl
+
+theorem argsortFlat_nil (c : Cmp α) (k : SortKind) : argsortFlat c k ([] : List α) = .ok [] := by
+  unfold argsortFlat; rw [sortFlat_nil]; rfl
+
+theorem uniqueFlat_nil (c : Cmp α) : uniqueFlat c ([] : List α) = [] := by
+  simp [uniqueFlat, dedup]
+
+/-- flat forms on an array without elements (any shape): the empty 1-D array -/
+theorem sort_flat_zero (zero : α) (a : Arr α) (ka : KindArg) (k : SortKind) (hk : resolveKind ka = .ok k)
+    (he : a.elems = []) : Sort.sort c zero a none ka = .ok (Arr.flat []) := by
+  simp only [Sort.sort, hk, Res.bind_ok, sortLane, he, sortFlat_nil, Res.map]
+
+theorem argsort_flat_zero (zero : α) (a : Arr α) (ka : KindArg) (k : SortKind) (hk : resolveKind ka = .ok k)
+    (he : a.elems = []) : Sort.argsort c zero a none ka = .ok (Arr.flat []) := by
+  simp only [Sort.argsort, hk, Res.bind_ok, argsortLane, he, argsortFlat_nil, Res.map]
+
+theorem unique_flat_zero (zero : α) (a : Arr α) (he : a.elems = []) :
+    Sort.unique c zero a none = .ok (Arr.flat []) := by
+  simp only [Sort.unique, uniqueLane, he, uniqueFlat_nil]
+
+/-- **`sort(axis)` on a well-formed array with a zero-length axis**, every rank, every axis in range, every kind: when
+an axis OTHER than the processed one has length 0 the call answers `Err(ParameterError)` (`split(0, None)` inside
+`apply_along_axis`), otherwise — only the processed axis is empty — the array itself comes back -/
+theorem sort_zero_axis (zero : α) (a : Arr α) (ax : Int) (ka : KindArg) (k : SortKind) (hk : resolveKind ka = .ok k)
+    (hwf : a.WF) (h0 : 0 ∈ a.shape) (hax : normalizeAxis a.ndim ax < a.ndim) :
+    Sort.sort c zero a (some ax) ka =
+      if 0 ∈ a.shape.eraseIdx (normalizeAxis a.ndim ax) then .err .ParameterError else .ok a := by
+  simp only [Sort.sort, hk, Res.bind_ok]
+  rw [along_zero_empty_lane a zero zero _ (sortLane c k) hwf hax h0
+    (by simp only [sortLane, Arr.flat, sortFlat_nil, Res.map]), ← eq_mk_nil_of_zero_mem a hwf h0]
+
+/-- `argsort(axis)` likewise: `Err(ParameterError)` or the empty index array of the same shape -/
+theorem argsort_zero_axis (zero : α) (a : Arr α) (ax : Int) (ka : KindArg) (k : SortKind) (hk : resolveKind ka = .ok k)
+    (hwf : a.WF) (h0 : 0 ∈ a.shape) (hax : normalizeAxis a.ndim ax < a.ndim) :
+    Sort.argsort c zero a (some ax) ka =
+      if 0 ∈ a.shape.eraseIdx (normalizeAxis a.ndim ax) then .err .ParameterError else .ok ⟨[], a.shape⟩ := by
+  simp only [Sort.argsort, hk, Res.bind_ok]
+  exact along_zero_empty_lane a zero (0 : Nat) _ (argsortLane c k) hwf hax h0
+    (by simp only [argsortLane, Arr.flat, argsortFlat_nil, Res.map])
+
+/-- `unique(axis)` likewise -/
+theorem unique_zero_axis (zero : α) (a : Arr α) (ax : Int)
+    (hwf : a.WF) (h0 : 0 ∈ a.shape) (hax : normalizeAxis a.ndim ax < a.ndim) :
+    Sort.unique c zero a (some ax) =
+      if 0 ∈ a.shape.eraseIdx (normalizeAxis a.ndim ax) then .err .ParameterError else .ok a := by
+  simp only [Sort.unique]
+  rw [along_zero_empty_lane a zero zero _ (uniqueLane c) hwf hax h0
+    (by simp only [uniqueLane, Arr.flat, uniqueFlat_nil]), ← eq_mk_nil_of_zero_mem a hwf h0]
+
+/-- **`argmax` / `argmin` on a well-formed array with a zero-length axis are ALWAYS refused with an error value**:
+`AxisOutOfBounds` for an axis outside the rank, `ParameterError` otherwise (flat form: "cannot be empty"; axis form:
+`split(0, None)` or the flat form on the one empty lane), whatever `keepdims` -/
+theorem argExtreme_zero (zero : α) (isMax : Bool) (a : Arr α) (axis : Option Int) (kd : Option Bool)
+    (hwf : a.WF) (h0 : 0 ∈ a.shape) :
+    Sort.argExtreme c zero isMax a axis kd = .err (match axis with
+      | some ax => if a.ndim ≤ normalizeAxis a.ndim ax then .AxisOutOfBounds else .ParameterError
+      | none => .ParameterError) := by
+  have he := elems_nil_of_zero_mem a hwf h0
+  cases axis with
+  | none => simp [Sort.argExtreme, Arr.countAxis, argExtremeLane, Arr.isEmpty, he]
+  | some ax =>
+    by_cases hax : a.ndim ≤ normalizeAxis a.ndim ax
+    · simp only [Sort.argExtreme, Arr.countAxis, applyAlongAxis_axis_err _ _ _ _ _ hax, Res.bind_err, if_pos hax]
+    · have hf : (fun arr => argExtremeLane c isMax arr kd) (Arr.flat []) = .err .ParameterError := by
+        simp [argExtremeLane, Arr.isEmpty, Arr.flat]
+      simp only [Sort.argExtreme, Arr.countAxis, if_neg hax]
+      rw [along_zero_refusing_lane a zero (0 : Nat) _ _ .ParameterError hwf (by omega) h0 hf]
+      simp
+
+/-! ## total statements: every well-formed array (zero-length axes or not), every axis option, every selector -/
+
+theorem sortLane_no_panic (h : c.Lawful) (k : SortKind) (x : Arr α) : sortLane c k x ≠ .panic := by
+  simp only [sortLane, sorts_agree h k, Res.map]; exact fun h => nomatch h
+
+theorem argsortLane_no_panic (h : c.Lawful) (k : SortKind) (x : Arr α) : argsortLane c k x ≠ .panic := by
+  obtain ⟨r, hr, _⟩ := argsort_spec h k x.elems
+  simp only [argsortLane, hr, Res.map]; exact fun h => nomatch h
+
+theorem argExtremeLane_no_panic (h : c.Lawful) (isMax : Bool) (kd : Option Bool) (x : Arr α) :
+    argExtremeLane c isMax x kd ≠ .panic := by
+  unfold argExtremeLane
+  by_cases he : x.isEmpty = true
+  · rw [if_pos he]; exact fun h => nomatch h
+  · rw [if_neg he]
+    have hne : x.elems ≠ [] := by
+      intro h0; apply he; simp [Arr.isEmpty, h0]
+    obtain ⟨p, hp⟩ : ∃ p, argExtremePos c isMax x.elems = .ok p := by
+      cases isMax
+      · obtain ⟨p, _, hp, _⟩ := argmin_spec h x.elems hne; exact ⟨p, hp⟩
+      · obtain ⟨p, _, hp, _⟩ := argmax_spec h x.elems hne; exact ⟨p, hp⟩
+    rw [hp, Res.bind_ok]
+    unfold Arr.keepdimsTail
+    split
+    · exact single_atleast_no_panic p _
+    · exact fun h => nomatch h
+
+/-- **`sort` is total**: `Ok` with a well-formed array (of the same rank in the axis form, 1-D in the flat form) or an
+error value — for every well-formed array, axis option and selector argument -/
+theorem sort_op_total (h : c.Lawful) (zero : α) (a : Arr α) (axis : Option Int) (ka : KindArg) (hwf : a.WF) :
+    (∃ r, Sort.sort c zero a axis ka = .ok r ∧ r.WF ∧ r.ndim = (if axis.isSome then a.ndim else 1)) ∨
+    (∃ e, Sort.sort c zero a axis ka = .err e) := by
+  cases hk : resolveKind ka with
+  | panic => exact absurd hk (resolveKind_never_panics ka)
+  | err e => exact Or.inr ⟨e, sort_bad_kind zero a axis ka e hk⟩
+  | ok k =>
+    cases axis with
+    | none =>
+      exact Or.inl ⟨_, sort_flat h zero a ka k hk, flat_WF _, rfl⟩
+    | some ax =>
+      simp only [Sort.sort, hk, Res.bind_ok, Option.isSome_some, if_true]
+      exact applyAlongAxis_total a zero zero _ (sortLane c k) hwf (sortLane_no_panic h k)
+
+theorem argsort_op_total (h : c.Lawful) (zero : α) (a : Arr α) (axis : Option Int) (ka : KindArg) (hwf : a.WF) :
+    (∃ r, Sort.argsort c zero a axis ka = .ok r ∧ r.WF ∧ r.ndim = (if axis.isSome then a.ndim else 1)) ∨
+    (∃ e, Sort.argsort c zero a axis ka = .err e) := by
+  cases hk : resolveKind ka with
+  | panic => exact absurd hk (resolveKind_never_panics ka)
+  | err e => exact Or.inr ⟨e, argsort_bad_kind zero a axis ka e hk⟩
+  | ok k =>
+    cases axis with
+    | none =>
+      obtain ⟨r, _, hr⟩ := argsort_flat h zero a ka k hk
+      exact Or.inl ⟨_, hr, flat_WF _, rfl⟩
+    | some ax =>
+      simp only [Sort.argsort, hk, Res.bind_ok, Option.isSome_some, if_true]
+      exact applyAlongAxis_total a zero (0 : Nat) _ (argsortLane c k) hwf (argsortLane_no_panic h k)
+
+/-- `unique` is total for ANY comparison operators (no order law needed) -/
+theorem unique_op_total (zero : α) (a : Arr α) (axis : Option Int) (hwf : a.WF) :
+    (∃ r, Sort.unique c zero a axis = .ok r ∧ r.WF ∧ r.ndim = (if axis.isSome then a.ndim else 1)) ∨
+    (∃ e, Sort.unique c zero a axis = .err e) := by
+  cases axis with
+  | none => exact Or.inl ⟨_, rfl, flat_WF _, rfl⟩
+  | some ax =>
+    simp only [Sort.unique, Option.isSome_some, if_true]
+    exact applyAlongAxis_total a zero zero _ (uniqueLane c) hwf (fun x => by simp [uniqueLane])
+
+theorem argExtremeLane_total (h : c.Lawful) (isMax : Bool) (kd : Option Bool) (x : Arr α) :
+    (∃ r, argExtremeLane c isMax x kd = .ok r ∧ r.WF) ∨ (∃ e, argExtremeLane c isMax x kd = .err e) := by
+  unfold argExtremeLane
+  by_cases he : x.isEmpty = true
+  · rw [if_pos he]; exact Or.inr ⟨_, rfl⟩
+  · rw [if_neg he]
+    have hne : x.elems ≠ [] := by
+      intro h0; apply he; simp [Arr.isEmpty, h0]
+    obtain ⟨p, hp⟩ : ∃ p, argExtremePos c isMax x.elems = .ok p := by
+      cases isMax
+      · obtain ⟨p, _, hp, _⟩ := argmin_spec h x.elems hne; exact ⟨p, hp⟩
+      · obtain ⟨p, _, hp, _⟩ := argmax_spec h x.elems hne; exact ⟨p, hp⟩
+    rw [hp, Res.bind_ok]
+    unfold Arr.keepdimsTail
+    split
+    · exact single_atleast_total p _
+    · exact Or.inl ⟨_, rfl, rfl⟩
+
+/-- `argmax` / `argmin` are total: `Ok` with a well-formed array or an error value (in particular the `Vec::remove`
+of the non-`keepdims` arm is only reached with the axis in range, and `position(..).unwrap()` always finds) -/
+theorem argExtreme_op_total (h : c.Lawful) (zero : α) (isMax : Bool) (a : Arr α) (axis : Option Int)
+    (kd : Option Bool) (hwf : a.WF) :
+    (∃ r, Sort.argExtreme c zero isMax a axis kd = .ok r ∧ r.WF) ∨
+    (∃ e, Sort.argExtreme c zero isMax a axis kd = .err e) := by
+  cases axis with
+  | none => exact argExtremeLane_total h isMax kd a
+  | some ax =>
+    simp only [Sort.argExtreme, Arr.countAxis]
+    rcases applyAlongAxis_total a zero (0 : Nat) (normalizeAxis a.ndim ax) (fun arr => argExtremeLane c isMax arr kd) hwf
+      (fun x => argExtremeLane_no_panic h isMax kd x) with ⟨r, hr, hrwf, _⟩ | ⟨e, he⟩
+    · rw [hr, Res.bind_ok]
+      by_cases hkd : kd = some true
+      · rw [if_pos hkd]; exact Or.inl ⟨r, rfl, hrwf⟩
+      · rw [if_neg hkd]
+        have hax : normalizeAxis a.ndim ax < a.shape.length := by
+          apply Nat.lt_of_not_le
+          intro hge
+          rw [applyAlongAxis_axis_err a zero (0 : Nat) _ _ hge] at hr
+          cases hr
+        simp only [vecRemove, if_neg (Nat.not_le.2 hax), Res.bind_ok, Arr.reshape, Arr.new]
+        split
+        · rename_i hp; exact Or.inl ⟨_, rfl, hp.symm⟩
+        · exact Or.inr ⟨_, rfl⟩
+    · rw [he]; exact Or.inr ⟨e, rfl⟩
+
+theorem sort_op_never_panics (h : c.Lawful) (zero : α) (a : Arr α) (axis : Option Int) (ka : KindArg) (hwf : a.WF) :
+    Sort.sort c zero a axis ka ≠ .panic := by
+  rcases sort_op_total h zero a axis ka hwf with ⟨r, hr, _⟩ | ⟨e, he⟩ <;> simp [*]
+
+theorem argsort_op_never_panics (h : c.Lawful) (zero : α) (a : Arr α) (axis : Option Int) (ka : KindArg)
+    (hwf : a.WF) : Sort.argsort c zero a axis ka ≠ .panic := by
+  rcases argsort_op_total h zero a axis ka hwf with ⟨r, hr, _⟩ | ⟨e, he⟩ <;> simp [*]
+
+theorem unique_op_never_panics (zero : α) (a : Arr α) (axis : Option Int) (hwf : a.WF) :
+    Sort.unique c zero a axis ≠ .panic := by
+  rcases unique_op_total (c := c) zero a axis hwf with ⟨r, hr, _⟩ | ⟨e, he⟩ <;> simp [*]
+
+theorem argExtreme_op_never_panics (h : c.Lawful) (zero : α) (isMax : Bool) (a : Arr α) (axis : Option Int)
+    (kd : Option Bool) (hwf : a.WF) : Sort.argExtreme c zero isMax a axis kd ≠ .panic := by
+  rcases argExtreme_op_total h zero isMax a axis kd hwf with ⟨r, hr, _⟩ | ⟨e, he⟩ <;> simp [*]
+
+/-! ## the selected kind never matters, in any form -/
+
+/-- `sort` with any two accepted selectors (enum values, names in any case, `None`) gives the same answer — flat and
+axis forms, every well-formed or ill-formed array, zero-length axes included -/
+theorem sort_op_kinds_equal (h : c.Lawful) (zero : α) (a : Arr α) (axis : Option Int) (ka ka' : KindArg)
+    (k k' : SortKind) (hk : resolveKind ka = .ok k) (hk' : resolveKind ka' = .ok k') :
+    Sort.sort c zero a axis ka = Sort.sort c zero a axis ka' := by
+  have hl : sortLane c k = sortLane c k' := funext fun x => by simp only [sortLane, sort_kinds_equal h k k']
+  simp only [Sort.sort, hk, hk', Res.bind_ok, hl]
+
+/-- `argsort` likewise: the Stable kind (`tim_sort`) and the three others rank equal keys identically (in order of
+appearance, `argsort_spec`) on every lane of every array -/
+theorem argsort_op_kinds_equal (h : c.Lawful) (zero : α) (a : Arr α) (axis : Option Int) (ka ka' : KindArg)
+    (k k' : SortKind) (hk : resolveKind ka = .ok k) (hk' : resolveKind ka' = .ok k') :
+    Sort.argsort c zero a axis ka = Sort.argsort c zero a axis ka' := by
+  have hl : argsortLane c k = argsortLane c k' :=
+    funext fun x => by simp only [argsortLane, argsort_kinds_equal h k k']
+  simp only [Sort.argsort, hk, hk', Res.bind_ok, hl]
+
+/-- **`argsort(axis)`, the three facts per lane** (permutation of `0..n`, `sorted[r[i]] = lane[i]`, equal keys ranked
+in order of appearance), for every kind — the Stable kind included — and every lane of every array without a
+zero-length axis -/
+theorem argsort_axis_lane_facts (h : c.Lawful) (zero : α) (a : Arr α) (ax : Int) (ka : KindArg) (k : SortKind)
+    (hk : resolveKind ka = .ok k) (hwf : a.WF) (hnz : 0 ∉ a.shape) (hax : normalizeAxis a.ndim ax < a.ndim) :
+    ∃ r, Sort.argsort c zero a (some ax) ka = .ok r ∧ r.shape = a.shape ∧
+      ∀ cd, inRange a.shape cd = true →
+        (laneOf r (normalizeAxis a.ndim ax) cd).Perm (List.range (laneOf a (normalizeAxis a.ndim ax) cd).length) ∧
+        (∀ (i : Nat) (x : α) (p : Nat), (laneOf a (normalizeAxis a.ndim ax) cd)[i]? = some x →
+          (laneOf r (normalizeAxis a.ndim ax) cd)[i]? = some p →
+          ((laneOf a (normalizeAxis a.ndim ax) cd).mergeSort c.le)[p]? = some x) ∧
+        (∀ (i j : Nat) (x : α) (pi pj : Nat), i < j → (laneOf a (normalizeAxis a.ndim ax) cd)[i]? = some x →
+          (laneOf a (normalizeAxis a.ndim ax) cd)[j]? = some x →
+          (laneOf r (normalizeAxis a.ndim ax) cd)[i]? = some pi →
+          (laneOf r (normalizeAxis a.ndim ax) cd)[j]? = some pj → pi < pj) := by
+  obtain ⟨r, h1, h2, _, h4⟩ := argsort_axis_spec h zero a ax ka k hk hwf hnz hax
+  refine ⟨r, h1, h2, fun cd hcd => ?_⟩
+  obtain ⟨r0, e0, f1, f2, f3⟩ := argsort_spec h k (laneOf a (normalizeAxis a.ndim ax) cd)
+  have := (h4 cd hcd).symm.trans e0
+  cases this
+  exact ⟨f1, f2, f3⟩
+
+/-! ## `unique(axis)` -/
+
+/-- **every lane has the same number `k` of distinct values**: `unique(axis)` answers `Ok`, the axis gets length `k`
+and every lane of the result is `unique` of the corresponding input lane (for ANY comparison operators) -/
+theorem unique_axis_spec (zero : α) (a : Arr α) (ax : Int) (k : Nat)
+    (hwf : a.WF) (hnz : 0 ∉ a.shape) (hax : normalizeAxis a.ndim ax < a.ndim)
+    (hk : ∀ cd, inRange a.shape cd = true → (uniqueFlat c (laneOf a (normalizeAxis a.ndim ax) cd)).length = k) :
+    ∃ r, Sort.unique c zero a (some ax) = .ok r ∧ r.shape = a.shape.set (normalizeAxis a.ndim ax) k ∧ r.WF ∧
+      ∀ cd, inRange a.shape cd = true →
+        laneOf r (normalizeAxis a.ndim ax) cd = uniqueFlat c (laneOf a (normalizeAxis a.ndim ax) cd) := by
+  simp only [Sort.unique]
+  exact applyAlongAxis_lanes_uniform a zero zero _ k (uniqueLane c) (uniqueFlat c) hwf hax hnz (fun _ _ => rfl) hk
+
+/-- … and on a lawful order every lane of the result is strictly increasing and has exactly the members of the input
+lane: the sorted values of the lane without repetition -/
+theorem unique_axis_sorted_distinct (h : c.Lawful) (zero : α) (a : Arr α) (ax : Int) (k : Nat)
+    (hwf : a.WF) (hnz : 0 ∉ a.shape) (hax : normalizeAxis a.ndim ax < a.ndim)
+    (hk : ∀ cd, inRange a.shape cd = true → (uniqueFlat c (laneOf a (normalizeAxis a.ndim ax) cd)).length = k) :
+    ∃ r, Sort.unique c zero a (some ax) = .ok r ∧ r.shape = a.shape.set (normalizeAxis a.ndim ax) k ∧ r.WF ∧
+      ∀ cd, inRange a.shape cd = true →
+        (laneOf r (normalizeAxis a.ndim ax) cd).Pairwise (fun x y => c.lt x y = true) ∧
+        (laneOf r (normalizeAxis a.ndim ax) cd).length = k ∧
+        ∀ y, y ∈ laneOf r (normalizeAxis a.ndim ax) cd ↔ y ∈ laneOf a (normalizeAxis a.ndim ax) cd := by
+  obtain ⟨r, h1, h2, h3, h4⟩ := unique_axis_spec (c := c) zero a ax k hwf hnz hax hk
+  refine ⟨r, h1, h2, h3, fun cd hcd => ?_⟩
+  rw [h4 cd hcd]
+  exact ⟨(unique_spec h _).1, hk cd hcd, (unique_spec h _).2⟩
+
+/-- **complete outcome of `unique(axis)` on an array without a zero-length axis** (lanes with different numbers of
+distinct values included).  With `L = lanesOf a axis` (the lanes in processing order, `mem_lanesOf`), `k0` the number
+of distinct values of the FIRST lane (the lane through the origin, `lanesOf_headD`) and `buf` the concatenation of all
+per-lane answers: when `buf.length = rest.prod * k0` the answer is `Ok` — shape with the axis replaced by `k0`, and
+the element at (remaining coordinates `c'`, axis coordinate `j`) is `buf[ravel rest c' * k0 + j]`, i.e. for ragged
+lanes a re-cut buffer, not per-lane values — and otherwise `Err(ShapeMustMatchValuesLength)` (from `reshape`) -/
+theorem unique_axis_outcome (zero : α) (a : Arr α) (ax : Int)
+    (hwf : a.WF) (hnz : 0 ∉ a.shape) (hax : normalizeAxis a.ndim ax < a.ndim) :
+    ((a.shape.eraseIdx (normalizeAxis a.ndim ax)).prod *
+        (uniqueFlat c ((lanesOf a (normalizeAxis a.ndim ax)).headD [])).length =
+        ((lanesOf a (normalizeAxis a.ndim ax)).flatMap (uniqueFlat c)).length →
+      ∃ r, Sort.unique c zero a (some ax) = .ok r ∧
+        r.shape = a.shape.set (normalizeAxis a.ndim ax)
+          (uniqueFlat c ((lanesOf a (normalizeAxis a.ndim ax)).headD [])).length ∧ r.WF ∧
+        ∀ c' j, inRange (a.shape.eraseIdx (normalizeAxis a.ndim ax)) c' = true →
+          j < (uniqueFlat c ((lanesOf a (normalizeAxis a.ndim ax)).headD [])).length →
+          r.get? (c'.insertIdx (normalizeAxis a.ndim ax) j) =
+            ((lanesOf a (normalizeAxis a.ndim ax)).flatMap (uniqueFlat c))[
+              ravel (a.shape.eraseIdx (normalizeAxis a.ndim ax)) c' *
+                (uniqueFlat c ((lanesOf a (normalizeAxis a.ndim ax)).headD [])).length + j]?) ∧
+    ((a.shape.eraseIdx (normalizeAxis a.ndim ax)).prod *
+        (uniqueFlat c ((lanesOf a (normalizeAxis a.ndim ax)).headD [])).length ≠
+        ((lanesOf a (normalizeAxis a.ndim ax)).flatMap (uniqueFlat c)).length →
+      Sort.unique c zero a (some ax) = .err .ShapeMustMatchValuesLength) := by
+  simp only [Sort.unique]
+  exact applyAlongAxis_pure a zero zero _ (uniqueLane c) (uniqueFlat c) hwf hax hnz (fun _ _ => rfl)
+
+/-- **ragged lanes are refused** whenever the first lane (the lane through the origin) has the largest — or the
+smallest — number `k0` of distinct values and some lane differs: `Err(ShapeMustMatchValuesLength)`.  (When counts lie
+on both sides of `k0` and happen to add up to `rest.prod * k0` the call succeeds with the re-cut buffer of
+`unique_axis_outcome`; see the examples.) -/
+theorem unique_axis_ragged_refused (zero : α) (a : Arr α) (ax : Int) (k0 : Nat)
+    (hwf : a.WF) (hnz : 0 ∉ a.shape) (hax : normalizeAxis a.ndim ax < a.ndim)
+    (hk0 : (uniqueFlat c (laneOf a (normalizeAxis a.ndim ax) (List.replicate a.ndim 0))).length = k0)
+    (hrag :
+      ((∀ cd, inRange a.shape cd = true → (uniqueFlat c (laneOf a (normalizeAxis a.ndim ax) cd)).length ≤ k0) ∧
+        ∃ cd, inRange a.shape cd = true ∧ (uniqueFlat c (laneOf a (normalizeAxis a.ndim ax) cd)).length < k0) ∨
+      ((∀ cd, inRange a.shape cd = true → k0 ≤ (uniqueFlat c (laneOf a (normalizeAxis a.ndim ax) cd)).length) ∧
+        ∃ cd, inRange a.shape cd = true ∧ k0 < (uniqueFlat c (laneOf a (normalizeAxis a.ndim ax) cd)).length)) :
+    Sort.unique c zero a (some ax) = .err .ShapeMustMatchValuesLength := by
+  apply (unique_axis_outcome (c := c) zero a ax hwf hnz hax).2
+  rw [lanesOf_headD a _ hax hnz, hk0, ← lanesOf_length a (normalizeAxis a.ndim ax)]
+  have hmem := mem_lanesOf a _ hax hnz
+  rcases hrag with ⟨hle, cd, hcd, hlt⟩ | ⟨hge, cd, hcd, hgt⟩
+  · have := sum_lt_of_exists_lt (uniqueFlat c) k0 (lanesOf a (normalizeAxis a.ndim ax))
+      (fun l hl => by obtain ⟨cd, hcd, rfl⟩ := (hmem l).1 hl; exact hle cd hcd)
+      ⟨_, (hmem _).2 ⟨cd, hcd, rfl⟩, hlt⟩
+    omega
+  · have := sum_gt_of_exists_gt (uniqueFlat c) k0 (lanesOf a (normalizeAxis a.ndim ax))
+      (fun l hl => by obtain ⟨cd, hcd, rfl⟩ := (hmem l).1 hl; exact hge cd hcd)
+      ⟨_, (hmem _).2 ⟨cd, hcd, rfl⟩, hgt⟩
+    omega
+
+/-! ## non-vacuity of the extension -/
+
+/-- zero-length axes: `[2,0]` (axis 0: the other axis is empty — refused; axis 1: the array comes back), `[0,0]` -/
+example : Sort.sort Cmp.int 0 (⟨[], [2, 0]⟩ : Arr Int) (some 0) (.enum .Stable) = .err .ParameterError ∧
+    Sort.sort Cmp.int 0 (⟨[], [2, 0]⟩ : Arr Int) (some 1) (.enum .Stable) = .ok ⟨[], [2, 0]⟩ ∧
+    Sort.sort Cmp.int 0 (⟨[], [0, 0]⟩ : Arr Int) (some (-1)) .none = .err .ParameterError ∧
+    Sort.sort Cmp.int 0 (⟨[], [1, 0, 1]⟩ : Arr Int) (some (-2)) (.enum .Heapsort) = .ok ⟨[], [1, 0, 1]⟩ ∧
+    Sort.argsort Cmp.int 0 (⟨[], [2, 0]⟩ : Arr Int) (some 1) .none = .ok ⟨[], [2, 0]⟩ ∧
+    Sort.argsort Cmp.int 0 (⟨[], [0, 2]⟩ : Arr Int) none .none = .ok ⟨[], [0]⟩ ∧
+    Sort.argExtreme Cmp.int 0 true (⟨[], [2, 0]⟩ : Arr Int) (some 1) (some true) = .err .ParameterError ∧
+    Sort.argExtreme Cmp.int 0 false (⟨[], [2, 0]⟩ : Arr Int) (some 2) none = .err .AxisOutOfBounds := by
+  decide +kernel
+example := sort_zero_axis (c := Cmp.int) 0 (⟨[], [2, 0]⟩ : Arr Int) 1 (.enum .Stable) .Stable rfl (by decide)
+  (by decide) (by decide)
+example : Sort.unique Cmp.int 0 (⟨[], [2, 0]⟩ : Arr Int) (some 1) = .ok ⟨[], [2, 0]⟩ :=
+  (unique_zero_axis 0 _ 1 (by decide) (by decide) (by decide)).trans (by decide)
+
+/-- `unique(axis)`: uniform lanes (2 distinct values each), ragged lanes that are refused (counts 2, 1), and ragged
+lanes whose counts 2, 1, 3 add up to `3 * 2`: accepted with the re-cut buffer (rows `[1,2] [5,7] [8,9]`) -/
+def uniformU : Arr Int := ⟨[1, 1, 2, 4, 3, 4], [2, 3]⟩
+
+example : Sort.unique Cmp.int 0 uniformU (some 1) = .ok ⟨[1, 2, 3, 4], [2, 2]⟩ := by
+  simp only [Sort.unique, uniqueLane_eq_model_sort Cmp.int_lawful]; decide +kernel
+example : Sort.unique Cmp.int 0 ⟨[1, 2, 2, 5, 5, 5], [2, 3]⟩ (some (-1)) = .err .ShapeMustMatchValuesLength := by
+  simp only [Sort.unique, uniqueLane_eq_model_sort Cmp.int_lawful]; decide +kernel
+example : Sort.unique Cmp.int 0 ⟨[1, 2, 2, 5, 5, 5, 7, 8, 9], [3, 3]⟩ (some 1) = .ok ⟨[1, 2, 5, 7, 8, 9], [3, 2]⟩ := by
+  simp only [Sort.unique, uniqueLane_eq_model_sort Cmp.int_lawful]; decide +kernel
+/-- the hypothesis of `unique_axis_spec` is met by `uniformU` -/
+example : ∀ cd, inRange uniformU.shape cd = true →
+    (uniqueFlat Cmp.int (laneOf uniformU (normalizeAxis uniformU.ndim 1) cd)).length = 2 := by
+  intro cd hcd
+  rw [uniqueFlat_eq_model_sort Cmp.int_lawful]
+  rcases cd with _ | ⟨x, _ | ⟨y, _ | ⟨z, t⟩⟩⟩
+  · simp [inRange, uniformU] at hcd
+  · simp [inRange, uniformU] at hcd
+  · simp only [inRange, uniformU, Bool.and_eq_true, decide_eq_true_eq, and_true] at hcd
+    have hx : x = 0 ∨ x = 1 := by omega
+    have hy : y = 0 ∨ y = 1 ∨ y = 2 := by omega
+    rcases hx with rfl | rfl <;> rcases hy with rfl | rfl | rfl <;> decide +kernel
+  · simp [inRange, uniformU] at hcd
+
+/-! ## the closed form of `argsort` -/
+
+/-- **closed form**: `argsort` (any kind) assigns to position `i` the number of elements smaller than `xs[i]` plus the
+number of equal elements appearing before position `i` (`rankOf`) -/
+theorem argsort_rank_formula (h : c.Lawful) (k : SortKind) (xs : List α) :
+    argsortFlat c k xs = .ok ((List.range xs.length).map (rankOf c xs)) := by
+  obtain ⟨r, hr, hp, hA, hB⟩ := argsort_spec h k xs
+  rw [hr, rank_unique h xs _ r (h.sorted_mergeSort xs) hp hA hB]
+
+/-- **the three facts of `argsort_spec` determine the answer**: any list of positions that is a permutation of
+`0..n`, puts every element where the sorted lane holds it, and ranks equal elements in order of appearance IS the
+answer of `argsort`, for every kind -/
+theorem argsort_determined (h : c.Lawful) (k : SortKind) (xs : List α) (r : List Nat)
+    (hperm : r.Perm (List.range xs.length))
+    (hA : ∀ (i : Nat) (x : α) (p : Nat), xs[i]? = some x → r[i]? = some p → (xs.mergeSort c.le)[p]? = some x)
+    (hB : ∀ (i j : Nat) (x : α) (pi pj : Nat), i < j → xs[i]? = some x → xs[j]? = some x → r[i]? = some pi →
+        r[j]? = some pj → pi < pj) :
+    argsortFlat c k xs = .ok r := by
+  rw [argsort_rank_formula h k xs, rank_unique h xs _ r (h.sorted_mergeSort xs) hperm hA hB]
+
+example : (List.range 4).map (rankOf Cmp.int [3, 1, 3, 1]) = [2, 0, 3, 1] := by decide
+example : (List.range 6).map (rankOf Cmp.int [5, 5, -1, 5, 0, -1]) = [3, 4, 0, 5, 2, 1] := by decide
 
 end ArrModel.C10
